@@ -453,7 +453,13 @@ Spec == Init /\ [][Next]_vars
 FairSpec == Spec /\ WF_vars(Next)
 
 (* ---------------- properties of the design ---------------------------------------------------- *)
-NoClauseViolated == bad = {}                     \* every clause of C01-C08, at every event
+\* every clause, at every event; a check for one property passes its clause prefix (e.g. "C05.") in the environment
+\* so that TLC explores the whole family even where a clause of another property has a known finding
+ClausePrefix == IF "CLAUSES" \in DOMAIN IOEnv THEN IOEnv.CLAUSES ELSE ""
+Own(c) == Len(c) >= Len(ClausePrefix) /\ SubSeq(c, 1, Len(ClausePrefix)) = ClausePrefix
+\* clauses recorded as known findings (KNOWN_FINDINGS.txt) are carved out so that TLC keeps looking for other violations
+KnownClauses == IF "KNOWNFILE" \in DOMAIN IOEnv /\ IOEnv.KNOWNFILE # "" THEN Range(JsonDeserialize(IOEnv.KNOWNFILE)) ELSE {}
+NoClauseViolated == {c \in bad : Own(c) /\ c \notin KnownClauses} = {}
 NeverStuck == ~m.stuck                           \* _continue_with_batch always finds a batch while the root is pending
 Finished == frames = <<>>
 CleanAtEnd == Finished => (m.stack = <<>> /\ m.active = 0)
